@@ -12,8 +12,8 @@ RUN_IMPORT = "Router.UrlRun"
 
 RULE = ("cases drawn from one PRNG (VERIF_SEED): op0 escape(text), op1 unescape / unescape_minimal(raw), op2 "
         "RequestUrl::parse / parse_with_base('/path?query#frag') with raw escapes (valid, invalid-UTF-8, nested %25xx, "
-        "truncated, '+', empty fields; also 255-300 byte inputs), op7 the same request as leptos_actix hands it over "
-        "('http://leptos' + path-and-query), op3 ParamsMap (String / &'static str keys, new / with_capacity) -> "
+        "truncated, '+', empty fields; also 255-300 byte inputs), op7 the same request as the integrations hand it over "
+        "('http://leptos' + path-and-query: leptos_actix, 'http://leptos.dev' + ..: leptos_axum), op3 ParamsMap (String / &'static str keys, new / with_capacity) -> "
         "to_query_string -> parse, op4 raw route parameters collected with FromIterator (owned / Cow::Borrowed keys), "
         "op8 a map driven through insert / replace / remove sequences, then written and parsed back; "
         "op5/op6 a real nested (<Routes>, 1-3 levels of static / param / optional / wildcard segments, the same name at "
@@ -34,7 +34,7 @@ TRUSTED = [
 ASSUMPTIONS = [
     "Rust strings are valid UTF-8 (hypotheses all_bytes/utf8_valid of the round-trip theorems)",
     "a ParamsMap built through its public API has distinct keys and no key with an empty value list (wf_map)",
-    "request targets reach RequestUrl::parse as path-absolute references (leptos_axum) or as 'http://leptos' + a path-absolute reference (leptos_actix); other shapes are only checked for panics",
+    "request targets reach RequestUrl::parse as path-absolute references (RequestUrl's own tests, hand-written integrations) or as 'http://leptos' / 'http://leptos.dev' + the request's path-and-query (leptos_actix / leptos_axum); other shapes are only checked for panics",
 ]
 
 TEXT_CHARS = ["%", "+", "&", "=", "#", "?", "/", " ", "a", "Z", "4", "1", "2", "5", "F", "f",
@@ -235,7 +235,9 @@ def generate(rng, tier):
             yield dict(case=C.norm([2, u] + ([b] if b else [])), kind="parse-url")
         elif r < 0.57:
             u = gen_url(rng, plain=True) if rng.random() < 0.97 else "/p?" + long_raw(rng)
-            yield dict(case=C.norm([7, u]), kind="parse-url-actix")
+            if rng.random() < 0.1:
+                u = "/" + u              # "//x": a path here, not an authority, behind the absolute prefix
+            yield dict(case=C.norm([7, u] + rng.choice([[], [1]])), kind="parse-url-integrations")
         elif r < 0.70:
             # third element: bit 0 = keys inserted as &'static str (Cow::Borrowed) instead of owned Strings,
             # bit 1 = ParamsMap::with_capacity
@@ -497,7 +499,7 @@ def describe(it):
     case = it["case"]
     op = case[0]
     names = {0: "escape", 1: "unescape", 2: "RequestUrl::parse", 3: "map->query->parse", 4: "collect raw params",
-             5: "nested router", 6: "flat router", 7: "RequestUrl::parse(http://leptos + ..)", 8: "map edit"}
+             5: "nested router", 6: "flat router", 7: "RequestUrl::parse(http://leptos[.dev] + ..)", 8: "map edit"}
     a = case[1]
     if op in (0, 1, 2, 7):
         extra = ""
@@ -505,6 +507,8 @@ def describe(it):
             extra = " [unescape_minimal]"
         if op == 2 and len(case) > 2 and case[2]:
             extra = " [parse_with_base #%d]" % case[2]
+        if op == 7:
+            extra = " [leptos_axum]" if len(case) > 2 and case[2] == 1 else " [leptos_actix]"
         return "%s(%r)%s" % (names[op], C.show_bytes(a), extra)
     if op in (5, 6):
         mode = ["to_html", "in-order stream", "out-of-order stream"][case[1] & 3]
@@ -598,8 +602,7 @@ def valid_case(item):
             return (_utf8(arg) and s[:1] == b"/" and s[1:2] not in (b"/", b"\\")
                     and (len(case) == 2 or case[2] in (1, 2)))
         if op == 7:
-            s = bytes(arg)
-            return len(case) == 2 and _utf8(arg) and s[:1] == b"/" and s[1:2] not in (b"/", b"\\")
+            return (len(case) == 2 or case[2] == 1) and _utf8(arg) and bytes(arg)[:1] == b"/"
         if op == 3:
             if len(case) > 2 and case[2] not in (0, 1, 2, 3):
                 return False
